@@ -11,6 +11,7 @@ import PyTough.Model.FromGeo
 import PyTough.Proofs.FromGeoNames
 import PyTough.Proofs.FromGeoArith
 import PyTough.Proofs.FromGeoConn
+import PyTough.Proofs.FromGeoTotal
 import PyTough.Proofs.FromGeoExample
 
 namespace Props.C04
@@ -44,6 +45,61 @@ example : Ex.grid.blocks.map (·.name) =
   decide +kernel
 example : (Ex.grid.conns.map TConn.names).length = 6 ∧
     (Ex.grid.conns.map TConn.names).head? = some (['#','0','0','0','1'], ['A','T','M',' ','0']) := by decide +kernel
+
+
+/-! ### the conversion never fails on a valid geometry; where its blocks and connections come from
+
+  These three theorems discharge, for the grid `T` that `fromgeo` returns, the hypotheses that the
+  connection theorems below state about a block list `bs` and a pair of layers:
+  take `bs := T.blocks`. -/
+
+/-- On every well-formed geometry (fresh name cache, distinct mapped names, every block name
+    parsing back to its layer and column, chained layer tops with distinct layer names,
+    atmosphere type 0, 1 or 2) `fromgeo` returns a grid: no `KeyError`, `IndexError` or
+    `TypeError` can escape. -/
+theorem fromgeo_succeeds (g : Geo) (m : BlockMap) (hfresh : Fresh g)
+    (hinj : (g.blockNames.map (applyMap m)).Nodup) (hparse : parseOk g = true) (hwf : LayersWF g)
+    (hatm : g.atmType ≤ 2) : ∃ T, fromgeo g m = .ok T :=
+  Proofs.FromGeo.fromgeo_ok g m hfresh hinj hparse hwf hatm
+
+/-- The block the grid holds for layer `lay` and column `col` (a column whose surface is above the
+    layer bottom): it carries the mapped announced name, the volume `block_volume(lay, col)` and
+    the centre `block_centre(lay, col)`. -/
+theorem grid_block_data (g : Geo) (m : BlockMap) (T : Grid) (hfresh : Fresh g)
+    (hinj : (g.blockNames.map (applyMap m)).Nodup) (hparse : parseOk g = true) (h : fromgeo g m = .ok T)
+    (lay : Layer) (hl : lay ∈ g.layers) (col : Column) (hc : col ∈ layerCols g lay) (nm : Str)
+    (hnm : blockName g.convention lay.name col.name = .ok nm) :
+    findBlock T.blocks (applyMap m nm) =
+      .ok ⟨applyMap m nm, blockVolume g lay col, blockCentre g lay col, false⟩ := by
+  unfold fromgeo at h
+  split at h
+  · cases h
+  · rename_i bs hb
+    split at h
+    · cases h
+    · cases h
+      exact Proofs.FromGeo.addBlocks_data g m bs hfresh hinj hparse hb lay hl col hc nm hnm
+
+/-- Every connection of the grid was built by the vertical loop body (`vertConn`) for a column of
+    a layer, or by the horizontal loop body (`horizConn`) for a geometry connection of a layer,
+    applied to the grid's own block list; `above` is the layer just above `lay` in `layerlist`. -/
+theorem grid_connection_origin (g : Geo) (m : BlockMap) (T : Grid) (h : fromgeo g m = .ok T) :
+    ∀ c ∈ T.conns, ∃ pre above lay post, g.layerlist = pre ++ above :: lay :: post ∧
+      ((∃ col ∈ layerCols g lay, vertConn g m T.blocks (decide (pre = [])) above lay col = .ok (some c)) ∨
+       (∃ k ∈ layerConns g (layerCols g lay), horizConn g m T.blocks lay k = .ok c)) :=
+  Proofs.FromGeo.fromgeo_conn_origin g m T h
+
+/-- Adjacent layers of a well-formed stack: the lower one starts where the upper one ends, has
+    positive thickness, is an underground layer and is not named like the atmosphere layer. -/
+theorem layer_stack_adjacent (g : Geo) (hwf : LayersWF g) (pre : List Layer) (above lay : Layer)
+    (post : List Layer) (hll : g.layerlist = pre ++ above :: lay :: post) :
+    lay.top = above.bottom ∧ lay.bottom < lay.top ∧ lay ∈ g.layers ∧ lay.name ≠ g.layer0.name := by
+  obtain ⟨a, b, c⟩ := Proofs.FromGeo.chain_adjacent g.layers g.layer0 hwf.2.1 pre above lay post
+    (by simpa [Geo.layerlist] using hll)
+  exact ⟨a, b, c, Proofs.FromGeo.layer_name_ne0 g lay hwf c⟩
+
+example : ∃ T, fromgeo Ex.geo Ex.bmap = .ok T :=
+  fromgeo_succeeds Ex.geo Ex.bmap (by decide +kernel) (by decide +kernel) (by decide +kernel) (by decide +kernel) (by decide +kernel)
 
 /-! ### volumes -/
 
@@ -129,6 +185,73 @@ theorem vertical_connection_atmosphere (g : Geo) (m : BlockMap) (bs : List Block
       c.d0 = .exact (col.surface - cz) ∧ c.d1 = .exact g.atmConn :=
   ⟨(Proofs.FromGeo.vertConn_common g m bs first above lay col c h).2.1,
    Proofs.FromGeo.vertConn_atmosphere g m bs first above lay col c h hc⟩
+
+
+/-! ### composed statements about the grid `fromgeo` returns -/
+
+/-- Every underground block of the grid: its volume is column area times the height from the
+    layer bottom to the block top (column surface in the top block, layer top otherwise). -/
+theorem grid_block_volume (g : Geo) (m : BlockMap) (T : Grid) (hfresh : Fresh g)
+    (hinj : (g.blockNames.map (applyMap m)).Nodup) (hparse : parseOk g = true) (hwf : LayersWF g)
+    (h : fromgeo g m = .ok T) (lay : Layer) (hl : lay ∈ g.layers) (col : Column)
+    (hc : col ∈ layerCols g lay) (nm : Str) (hnm : blockName g.convention lay.name col.name = .ok nm) :
+    ∃ b, findBlock T.blocks (applyMap m nm) = .ok b ∧ b.atm = false ∧
+      b.volume = some (col.area * (blockTop g lay col - lay.bottom)) :=
+  ⟨_, grid_block_data g m T hfresh hinj hparse h lay hl col hc nm hnm, rfl,
+   block_volume_formula g lay col hwf hl (Proofs.FromGeo.layerCols_sub g lay col hc).2⟩
+
+/-- Every interior vertical connection of the grid (column `col`, layer `lay` below layer `above`,
+    surface above the top of `lay`): it joins the grid's block of (`lay`, `col`) — lower, centre at
+    the layer centre — to the grid's block of (`above`, `col`) — upper, centre `block_centre(above,
+    col)` —, in that order, and its two distances add up to the difference of the two centre
+    elevations. -/
+theorem grid_vertical_distances_add_up (g : Geo) (m : BlockMap) (T : Grid) (hfresh : Fresh g)
+    (hinj : (g.blockNames.map (applyMap m)).Nodup) (hparse : parseOk g = true) (hwf : LayersWF g)
+    (h : fromgeo g m = .ok T) (pre : List Layer) (above lay : Layer) (post : List Layer)
+    (hll : g.layerlist = pre ++ above :: lay :: post) (hpre : pre ≠ []) (col : Column)
+    (hc : col ∈ layerCols g lay) (htop : lay.top < col.surface) (c : TConn)
+    (hv : vertConn g m T.blocks (decide (pre = [])) above lay col = .ok (some c)) :
+    ∃ lower upper cu, findBlock T.blocks c.b0 = .ok lower ∧ findBlock T.blocks c.b1 = .ok upper ∧
+      lower.centre = some ⟨col.centre.x, col.centre.y, lay.centre⟩ ∧
+      upper.centre = some cu ∧ blockCentre g above col = some cu ∧
+      c.d0.rad = 1 ∧ c.d1.rad = 1 ∧ c.d0.coef + c.d1.coef = cu.z - lay.centre := by
+  obtain ⟨hadj, hpos, hlay, hn0⟩ := layer_stack_adjacent g hwf pre above lay post hll
+  have hcond : ¬ (decide (pre = []) = true ∨ col.surface ≤ lay.top) := by
+    intro hh
+    rcases hh with hh | hh
+    · exact hpre (by simpa using hh)
+    · exact absurd htop (not_lt.2 hh)
+  obtain ⟨_, hcentre, lower, upper, zu, h0, h1, hz, hr0, hr1, hsum⟩ :=
+    vertical_connection_geometry g m T.blocks _ above lay col c hv hcond hadj hpos hn0
+  have hcm := (Proofs.FromGeo.layerCols_sub g lay col hc).1
+  -- the lower block
+  obtain ⟨nm, hnm, _, _⟩ := Proofs.FromGeo.parseOk_spec g hparse lay hlay col hcm
+  have hd := grid_block_data g m T hfresh hinj hparse h lay hlay col hc nm hnm
+  have hb0 := Proofs.FromGeo.vertConn_lower_name g m T.blocks _ above lay col c nm hv hnm
+  rw [hb0, hd] at h0
+  -- the upper block
+  have habove : above ∈ g.layers := by
+    cases pre with
+    | nil => exact absurd rfl hpre
+    | cons p pre' =>
+      simp only [Geo.layerlist, List.cons_append, List.cons.injEq] at hll
+      rw [hll.2]; simp
+  have hca : col ∈ layerCols g above :=
+    Proofs.FromGeo.mem_layerCols g above col hcm (by rw [← hadj]; exact htop)
+  obtain ⟨nm2, hnm2, _, _⟩ := Proofs.FromGeo.parseOk_spec g hparse above habove col hcm
+  have hd2 := grid_block_data g m T hfresh hinj hparse h above habove col hca nm2 hnm2
+  have hb1 := Proofs.FromGeo.vertConn_upper_name g m T.blocks _ above lay col c nm2 hv hcond hnm2
+  rw [hb1, hd2] at h1
+  have e0 : lower = ⟨applyMap m nm, blockVolume g lay col, blockCentre g lay col, false⟩ := (Except.ok.inj h0).symm
+  have e1 : upper = ⟨applyMap m nm2, blockVolume g above col, blockCentre g above col, false⟩ := (Except.ok.inj h1).symm
+  have hzu : ∃ cu, upper.centre = some cu ∧ cu.z = zu := by
+    unfold centreZ at hz
+    split at hz
+    · rename_i cu hcu; exact ⟨cu, hcu, Except.ok.inj hz⟩
+    · cases hz
+  obtain ⟨cu, hcu, hcuz⟩ := hzu
+  refine ⟨lower, upper, cu, by rw [hb0, hd, e0], by rw [hb1, hd2, e1], by rw [e0]; exact hcentre, hcu,
+    by rw [← hcu, e1], hr0, hr1, by rw [hcuz]; exact hsum⟩
 
 /-! ### gravity cosines -/
 
